@@ -672,6 +672,9 @@ class AgainTask (Task):
 
     try:
       nxt = g.send(None)
+    except StopIteration:
+      # Subtask finished without yielding anything: returns None
+      pass
     except Exception:
       parent.task.re = sys.exc_info()
     else:
